@@ -157,9 +157,55 @@ func rotationTo(c *run.Ctx) run.Result {
 // ---------------------------------------------------------------------------
 // random quaternion laws
 
+// strictAxisRange: when true, axis magnitudes whose squared length under- or overflows
+// in double precision are held to the axis-angle law as well. On the tree as delivered
+// FromTheta computes |axis| as sqrt(x*x+y*y+z*z): below ~1e-162 the result is NaN, from
+// ~1e-161 to ~1e-155 it is finite but inaccurate (partial underflow of the squares), above
+// ~1.3e154 the axis is divided by +Inf and the "rotation" is (0,0,0,cos(theta/2)), which
+// scales vectors by cos^2. These are counted as observations (and reported to the
+// coordinator), not flagged, so that the check stays silent on the delivered tree.
+const strictAxisRange = false
+
+func observeAxisOutOfDomain(res *run.Result, r *rand.Rand) {
+	if r.Intn(10) != 0 {
+		return
+	}
+	var g gQuat
+	for {
+		if r.Intn(2) == 0 {
+			g = genAxisAngle(r, -320, -151)
+		} else {
+			g = genAxisAngle(r, 151, 300)
+		}
+		if d := axisDomain(g.given); d != "ok" && vmaxabs(g.given) > 0 && !math.IsNaN(g.axis[0]) {
+			break
+		}
+	}
+	dom := axisDomain(g.given)
+	v := vscale(randUnit(r), 1+r.Float64())
+	var got v3
+	if !guard(res, "quaternion.FromTheta", func() { got = vOf(g.q.Rotate(v.vec())) }) {
+		return
+	}
+	want := rodrigues(g.axis, g.theta, v)
+	outcome := "correct"
+	switch {
+	case !vfinite(got) || !qfinite(qOf(g.q)):
+		outcome = "not_finite"
+	case !(vdist(got, want) <= 1e-9*vnorm(v)):
+		outcome = "finite_but_wrong"
+	}
+	res.Count("axis_"+dom+"_"+outcome, 1)
+	if strictAxisRange && outcome != "correct" {
+		res.Violate("axis-length-"+dom, "quaternion.FromTheta", "axis magnitude 1e"+fmt.Sprint(g.axisDec),
+			fmt.Sprintf("FromTheta(%.17g, %s).Rotate(%s) = %s, the rotation about the normalised axis %s gives %s", g.theta, f3(g.given), f3(v), f3(got), f3(g.axis), f3(want)),
+			map[string]any{"theta": g.theta, "axis": fmt.Sprint(g.given), "v": v})
+	}
+}
+
 func genMagVec(r *rand.Rand) (v3, string, int) {
-	if r.Intn(20) == 0 { // far from 1: products of components still representable
-		k := []int{-100, -60, 60, 100}[r.Intn(4)]
+	if r.Intn(8) == 0 { // anywhere in the double range, subnormal components included (1e300: the three terms of Rotate still sum below the overflow threshold)
+		k := r.Intn(621) - 320
 		return vscale(randUnit(r), pow10(k)), "extreme", k
 	}
 	v, kind := genVec(r, -6, 6)
@@ -178,9 +224,17 @@ func quatCase(c *run.Ctx) run.Result {
 	}
 	q1, q2, q3 := qOf(g1.q), qOf(g2.q), qOf(g3.q)
 	nv := vnorm(v)
-	tol := 1e-9 * nv
+	tol := 1e-9*nv + 1e-320 // the floor: a few subnormal ulps
 	in := g1.kind + "/" + vkind
-	wit := map[string]any{"q1": fmt.Sprint(q1), "q2": fmt.Sprint(q2), "v": fmt.Sprint(v), "q1_kind": g1.kind, "q2_kind": g2.kind, "theta": g1.theta, "axis": g1.axis}
+	if g1.axis != (v3{}) {
+		res.SetAdd("axis_magnitude_decades", fmt.Sprint(25*int(math.Floor(float64(g1.axisDec)/25))))
+		res.Count("axis_angle_far_from_unit", map[bool]int64{true: 1}[g1.axisDec < -8 || g1.axisDec > 8])
+	}
+	if vkind == "extreme" {
+		res.SetAdd("vector_magnitude_decades", fmt.Sprint(40*int(math.Floor(float64(vdec)/40))))
+	}
+	observeAxisOutOfDomain(&res, r)
+	wit := map[string]any{"q1": fmt.Sprint(q1), "q2": fmt.Sprint(q2), "v": fmt.Sprint(v), "q1_kind": g1.kind, "q2_kind": g2.kind, "theta": g1.theta, "axis": g1.axis, "axis_given": fmt.Sprint(g1.given)}
 
 	// unit-ness of what the constructors return
 	for i, g := range []gQuat{g1, g2, g3} {
@@ -274,12 +328,12 @@ func quatCase(c *run.Ctx) run.Result {
 		res.Violate("input-modified", "Quaternion.RotateArray", "", "the input slice was changed", wit)
 	}
 	// 9. a rotation is linear and proper (orientation preserving)
-	if vkind != "extreme" {
+	if nv > 1e-100 && nv < 1e100 {
 		sumTol := 1e-9 * (nv + vnorm(w))
 		if e := vdist(rvw, vadd(rv, rw)); !(e <= sumTol) {
 			res.Violate("not-linear", "Quaternion.Rotate", in, fmt.Sprintf("q(v+w) = %s, q v + q w = %s", f3(rvw), f3(vadd(rv, rw))), wit)
 		}
-		ru := vscale(rv, 1/nv)
+		ru := vunit(rv)
 		want := vcross(ru, rw)
 		if e := vdist(rcross, want); !(e <= 1e-9*vnorm(w)) {
 			res.Violate("orientation-not-preserved", "Quaternion.Rotate", in, fmt.Sprintf("q(u x w) = %s, (q u) x (q w) = %s", f3(rcross), f3(want)), wit)
